@@ -81,7 +81,15 @@ def _read_model(mode):
             raise _Raise(ExcV('EndOfStreamError'))
         if ex.choose(size >= 0, 'rfs-size'):
             ex.assume(size <= rest)          # otherwise the generator never finishes: it keeps yielding underruns
-            out = SeqV(z3.Extract(data, pos, size), 'bytes')
+            cs = z3.simplify(size)
+            if z3.is_int_value(cs) and 1 <= cs.as_long() <= 2:
+                # small constant reads as explicit units: data[pos], data[pos+1] (same value, friendlier terms)
+                zz = z3.Unit(data[pos])
+                for j in range(1, cs.as_long()):
+                    zz = z3.Concat(zz, z3.Unit(data[pos + j]))
+                out = SeqV(zz, 'bytes')
+            else:
+                out = SeqV(z3.Extract(data, pos, size), 'bytes')
             substrate.fields['pos'] = pos + size
         else:
             k = ex.fresh('rfs.k', z3.IntSort())
